@@ -347,6 +347,12 @@ def validate_models(part=0, parts=1):
             k += 1
             if k % parts == part:
                 cmp(U.urlsafe_b64decode, bytes(tup))
+    k = 0
+    for L in range(0, 6):
+        for tup in itertools.product([ord("A"), ord("_"), ord("="), ord("\n"), 0xFF, ord("Q")], repeat=L):
+            k += 1
+            if k % parts == part:
+                cmp(base64.urlsafe_b64decode, bytes(tup))
     if part != 0:
         return dict(paths=0, queries=0, unsat=0, sat=0, unknown=0, secs=round(time.time() - t0, 2),
                     verdict="error" if bad else "confirmed", detail=repr(bad[:3]), concrete_validations=n,
